@@ -42,7 +42,9 @@ func (b *buffer) nextTag() Tag {
 func (b *buffer) advanceBuffer() Tag {
 	if b.pos < b.len {
 		b.pos++
-		return b.tag[b.pos]
+		if b.pos < b.len {
+			return b.tag[b.pos]
+		}
 	}
 	return Tag{}
 }
